@@ -383,7 +383,8 @@ fn shard(ctx: &ShardCtx, known: &Known) -> ShardOut {
     let st = Arc::new(states(&sc));
     let exec = |plan: &[usize], strat: Strategy| run_once(&sc, &template, &work, &st, plan, strat);
     let bound = ctx.tier.pick(2, 3);
-    let max_execs = ctx.tier.pick(40_000, 600_000);
+    // executions that grow and remap an 8 MiB file cost several times more: smaller caps there
+    let max_execs = if sc.grow { ctx.tier.pick(40_000, 150_000) } else { ctx.tier.pick(40_000, 600_000) };
     // 1. every schedule within the preemption bound (depth-first, by re-execution)
     let mut ok = true;
     let stats = dfs(bound, max_execs, |plan| {
@@ -395,7 +396,7 @@ fn shard(ctx: &ShardCtx, known: &Known) -> ShardOut {
     out.extra.insert("dfs".into(), serde_json::json!([{"scenario": sc, "bound": bound, "executions": stats.executions, "complete": stats.complete, "diverged": stats.diverged, "longest_trace": stats.max_trace}]));
     // 2. beyond the bound: seeded random and PCT-style schedules
     if ok {
-        let n = ctx.tier.pick(2000, 40000);
+        let n = if sc.grow { ctx.tier.pick(2000, 12000) } else { ctx.tier.pick(2000, 40000) };
         for i in 0..n {
             let seed = mix(ctx.shard_seed("c04-rand"), i as u64);
             let sid = if i % 2 == 0 { 1 } else { 2 };
